@@ -25,6 +25,7 @@ Definition mcode (s : mst) (h : hact) : N :=
       | None => 0%N
       end
     else 6%N
+  | HPanic => 9%N
   end.
 
 Definition mobs (h : mhst) : list N := map (mcode (mms h)) (mhmap h).
@@ -80,6 +81,7 @@ Definition mhstep (h : mhst) (e : list N) : option (mhst * list N) :=
       end
     | _ => None
     end
+  | [8] => ret {| mms := s; mhmap := mhmap h ++ [HPanic] |}
   | _ => None
   end%N.
 
@@ -87,5 +89,7 @@ Definition mhstep (h : mhst) (e : list N) : option (mhst * list N) :=
 Definition mon_mutex (ml : list mact) (e o : list N) : list mact * list (nat * nat) :=
   mon ml (match e with [1; _] => [1; 1] | [2; _] => [2; 1] | _ => e end)%N o.
 
+(* MutexLocker: Lock = Lock(context.Background()) and store the release function; Unlock = swap it out and call it,
+   panic if there is none: the [6 1] / [7 1] events of RWSpec with a stack that never holds more than one entry *)
 Definition run_check_mutex (cfg : list N) (evs obss : list (list N)) : list issue :=
-  run_check mhstep mon_mutex mhinit [] evs obss.
+  run_check (lstep mhstep (fun h => length (mhmap h))) (lmon mon_mutex (@length mact)) (mhinit, lockers0) ([], lockers0) evs obss.
